@@ -92,6 +92,11 @@ def gen_wsdl():
             and c.func.attr == "get" and len(c.args) == 2 and isinstance(c.args[0], ast.Constant) and c.args[0].value == "style"
             and isinstance(c.args[1], ast.Constant)]
     _one(len(dflt) == 1, "map_binding_operation: config.get('style', <default>)")
+    isnot = [n for n in ast.walk(fn) if isinstance(n, ast.Compare) and len(n.ops) == 1 and isinstance(n.ops[0], ast.IsNot)
+             and isinstance(n.left, ast.Subscript) and isinstance(n.comparators[0], ast.Constant) and n.comparators[0].value is None]
+    comps = [c for c in ast.walk(fn) if isinstance(c, ast.ListComp) and len(c.generators) == 1 and len(c.generators[0].ifs) == 1
+             and c.generators[0].ifs[0] in isnot]
+    _one(len(comps) == 1, "map_binding_operation: constants kept `if config[key] is not None`")
     sdflt = [c.args[1].value for c in ast.walk(fn) if isinstance(c, ast.Call) and isinstance(c.func, ast.Attribute)
              and c.func.attr == "setdefault" and len(c.args) == 2 and isinstance(c.args[0], ast.Constant)
              and c.args[0].value == "style" and isinstance(c.args[1], ast.Constant)]
@@ -173,6 +178,10 @@ def gen_wsdl():
         if isinstance(n, ast.Assign) and isinstance(n.targets[0], ast.Subscript) and isinstance(n.targets[0].slice, ast.Constant):
             sets.append((n.targets[0].slice.value, n.value.value if isinstance(n.value, ast.Constant) else None))
     _one(len(sets) == 2 and sets[0][1] is not None and sets[1][1] is None, "prepare_headers: two header assignments")
+    guards = [n.test for n in ast.walk(fn) if isinstance(n, ast.If) and isinstance(n.test, ast.Compare) and len(n.test.ops) == 1
+              and isinstance(n.test.ops[0], ast.IsNot) and isinstance(n.test.left, ast.Attribute) and n.test.left.attr == "soap_action"
+              and isinstance(n.test.comparators[0], ast.Constant) and n.test.comparators[0].value is None]
+    _one(len(guards) == 1, "prepare_headers: `if self.config.soap_action is not None`")
 
     out = "(* GENERATED by tools/gen_wsdl.py from xsdata/codegen/mappers/definitions.py, xsdata/models/enums.py, " \
           "xsdata/formats/dataclass/client.py — do not edit *)\nFrom Coq Require Import NArith List.\nImport ListNotations.\nOpen Scope N_scope.\n"
